@@ -45,6 +45,16 @@ impl<Read: ReadHalf> ReadConnection<Read> {
         self.id
     }
 
+    /// Verification-only (`--cfg zlink_verif`): report where the receive buffer currently lives.
+    #[cfg(zlink_verif)]
+    fn verif_note_buffer(&self) {
+        super::verif_hooks::note_read_buffer(
+            self.id,
+            self.buffer.as_ptr() as usize,
+            self.buffer.len(),
+        );
+    }
+
     /// Receives a method call reply.
     ///
     /// The generic parameters needs some explanation:
@@ -85,6 +95,9 @@ impl<Read: ReadHalf> ReadConnection<Read> {
             Reply(Reply<ReplyParams>),
         }
 
+        #[cfg(zlink_verif)]
+        self.verif_note_buffer();
+
         match self
             .read_message::<ReplyMsg<ReplyParams, ReplyError>>()
             .await?
@@ -110,6 +123,9 @@ impl<Read: ReadHalf> ReadConnection<Read> {
     where
         Method: Deserialize<'m> + Debug,
     {
+        #[cfg(zlink_verif)]
+        self.verif_note_buffer();
+
         self.read_message::<Call<Method>>().await
     }
 
